@@ -123,6 +123,16 @@ def step (st : St) (toks : List String) : St × List String :=
     | some r =>
       (st, s!"res n={r.1.length} more={b2s r.2}" ::
         r.1.map (fun o => s!"r {o.key.time} {showList o.key.tags} {o.key.skey} {showData o.data}"))
+  | ["hrun"] =>
+    -- handleGetTable from the LOD list on (LODs ascending as GetLODs returns them)
+    if !st.ok then (st, ["bad-op"]) else
+    let nl := st.lods.length
+    let store := (List.range st.req.cols.length).map (fun q => (List.range nl).map (fun k => cellAns st.cells q k))
+    match handleGetTable .keeps .fixed st.req st.lods store with
+    | none => (st, ["err"])
+    | some r =>
+      (st, s!"res n={r.1.length} more={b2s r.2}" ::
+        r.1.map (fun o => s!"r {o.key.time} {showList o.key.tags} {o.key.skey} {showData o.data}"))
   | _ => bad st
 
 def main : IO Unit :=
